@@ -12,7 +12,7 @@ for l in open('/verif/properties.jsonl'):
         p = q
 env = ("export PATH=/root/go/pkg/mod/golang.org/toolchain@v0.0.1-go1.25.11.linux-amd64/bin:$PATH "
        "GOTOOLCHAIN=local GOFLAGS=-mod=mod GOPROXY=off GOSUMDB=off CGO_ENABLED=1")
-out = f"""You are working on a scratch git worktree of the Go project etcd-io/bbolt (an embedded key/value store: copy-on-write B+tree in one mmap'd file, dual meta pages, single-writer/multi-reader transactions, page freelist). Your worktree is /tmp/wt-{sid}. Work ONLY inside /tmp/wt-{sid} and /tmp/mut-{sid}. Do not read, list or modify /repo or /verif or any other /tmp/wt-* or /tmp/mut-* directory, and do not commit anything.
+out = f"""You are working on a scratch git worktree of the Go project etcd-io/bbolt (an embedded key/value store: copy-on-write B+tree in one mmap'd file, dual meta pages, single-writer/multi-reader transactions, page freelist). Your worktree is /tmp/wt-{sid}. Work ONLY inside /tmp/wt-{sid} and /tmp/mut-{sid}. Do not read, list or modify /repo or /verif or any other /tmp/wt-* or /tmp/mut-* directory, and do not commit anything. Never use `git stash` (the stash is shared by all worktrees of this repository): to set your change aside use `git diff > /tmp/mut-{sid}/patch.diff; git checkout -- .` and `git apply` to bring it back.
 
 The sandbox is offline. Prefix every shell command that uses Go with:
   {env}
